@@ -58,6 +58,21 @@ Theorem C06_sent_rows_wellformed : forall m s s',
 Proof. exact send_msg_frame_codec_row. Qed.
 Print Assumptions C06_sent_rows_wellformed.
 
+(* For EVERY journal with unique keys, every request and every filter: the only exceptions that can
+   leave the handler are AssertionError, DuplicatedTagError, TagNotFoundError, ValueError and
+   OverflowError - in particular the journal write of a gap fill / retransmission never raises
+   DuplicateSeqNoError (rows >= BeginSeqNo were deleted first and the numbers sent are strictly
+   increasing), the state gates of send_msg never refuse and the encoder always has a number; and
+   whenever an exception is swallowed the connection is left in RESENDREQ_HANDLING (in
+   RESENDREQ_AWAITING if it was awaiting a resend itself). *)
+Theorem C06_abort_shape : forall f s bs es,
+  NoDup (map r_seq (rows s)) ->
+  let (s', x) := process_resend f bs es s in
+  allowed_exc x
+  /\ (x <> None -> cstate s' = (if cstate s =? ST_AWAITING then ST_AWAITING else ST_HANDLING)).
+Proof. exact resend_exceptions. Qed.
+Print Assumptions C06_abort_shape.
+
 (* ---- refutations of the full statement, one per known-finding class (each witness is replayed on
    the implementation by harness/c06.py; classes_of = the six class predicates in the order above) *)
 
